@@ -90,7 +90,10 @@ fn with_big_stack<R: Send + 'static>(f: impl FnOnce() -> R + Send + 'static) -> 
         .expect("spawn sim thread")
         .join()
         .unwrap_or_else(|_| {
-            eprintln!("HARNESS-ERROR sim thread panicked outside an op");
+            eprintln!(
+                "HARNESS-ERROR sim thread panicked outside an op: {:?}",
+                util::LAST_GLOBAL.lock().ok().and_then(|g| g.clone())
+            );
             std::process::exit(2)
         })
 }
@@ -110,14 +113,28 @@ fn cmd_run(m: BTreeMap<String, String>) -> i32 {
             return 2;
         }
     };
-    let trace: Trace = match serde_json::from_str(&text) {
+    let verbose = m.contains_key("verbose");
+    let value: serde_json::Value = match serde_json::from_str(&text) {
         Ok(t) => t,
         Err(e) => {
             eprintln!("HARNESS-ERROR bad trace {}: {}", path, e);
             return 2;
         }
     };
-    let verbose = m.contains_key("verbose");
+    if value.get("property").and_then(|p| p.as_str()) == Some("C14R") {
+        return with_big_stack(move || {
+            util::install_hook();
+            alloc::set_budget(exec::HEAP_BUDGET);
+            reader_sim::replay_value(value, verbose)
+        });
+    }
+    let trace: Trace = match serde_json::from_value(value) {
+        Ok(t) => t,
+        Err(e) => {
+            eprintln!("HARNESS-ERROR bad trace {}: {}", path, e);
+            return 2;
+        }
+    };
     let root = tests_root(&m);
     let status = m
         .get("status")
@@ -125,9 +142,6 @@ fn cmd_run(m: BTreeMap<String, String>) -> i32 {
     with_big_stack(move || {
         util::install_hook();
         alloc::set_budget(exec::HEAP_BUDGET);
-        if trace.property == "C14R" {
-            return reader_sim::replay(&trace, verbose);
-        }
         let mut corpus = Corpus::new(&root);
         let mut stats = Stats::default();
         let mut opts = ExecOpts {
@@ -155,6 +169,11 @@ fn cmd_gen(m: BTreeMap<String, String>) -> i32 {
     let prop = m.get("prop").cloned().unwrap_or_else(|| "C01".into());
     let seed: u64 = m.get("seed").and_then(|s| s.parse().ok()).unwrap_or(1);
     let run: u64 = m.get("run").and_then(|s| s.parse().ok()).unwrap_or(0);
+    if prop == "C14R" {
+        let t = reader_sim::generate(seed, run, m.contains_key("exact"));
+        println!("{}", serde_json::to_string(&t).unwrap());
+        return 0;
+    }
     let root = tests_root(&m);
     let mut corpus = Corpus::new(&root);
     let mut g = match gen::Generator::new(&root, &mut corpus) {
@@ -185,6 +204,7 @@ fn cmd_campaign(m: BTreeMap<String, String>) -> i32 {
     let stride: u64 = m.get("stride").and_then(|s| s.parse().ok()).unwrap_or(1);
     let secs: f64 = m.get("secs").and_then(|s| s.parse().ok()).unwrap_or(1e9);
     let digests = m.contains_key("digests");
+    let exact = m.contains_key("exact");
     let root = tests_root(&m);
     let out_path = m.get("out").cloned();
     let status_path = m.get("status").cloned();
@@ -202,7 +222,7 @@ fn cmd_campaign(m: BTreeMap<String, String>) -> i32 {
             None => Box::new(std::io::stdout()),
         };
         if prop == "C14R" {
-            return reader_sim::campaign(seed, start, count, stride, secs, digests, &mut out);
+            return reader_sim::campaign(seed, start, count, stride, secs, digests, exact, &mut out);
         }
         let status = status_path
             .and_then(|p| std::fs::OpenOptions::new().create(true).write(true).open(p).ok());
@@ -224,6 +244,7 @@ fn cmd_campaign(m: BTreeMap<String, String>) -> i32 {
         // indices are executed, never what any run does.
         let t0 = std::time::Instant::now();
         let mut done = 0u64;
+        let mut flushed = 0u64;
         let mut k = 0u64;
         let mut samples: Vec<serde_json::Value> = Vec::new();
         while k < count {
@@ -262,11 +283,26 @@ fn cmd_campaign(m: BTreeMap<String, String>) -> i32 {
             for v in &report.foreign {
                 stats.bump(&format!("foreign.{}", v.signature()));
             }
+            // Partial summaries: a worker that is later killed by an abort-class violation
+            // (allocation budget, stack overflow) does not lose what it already measured.
+            if done - flushed >= 2000 {
+                let _ = writeln!(
+                    out,
+                    "{}",
+                    json!({"type":"summary","prop":prop,"seed":seed,"start":start,"stride":stride,"executed":done - flushed,
+                           "next":start + k * stride,"wall_s":t0.elapsed().as_secs_f64(),"stats":stats_json(&stats),
+                           "samples":samples, "partial":true})
+                );
+                let _ = out.flush();
+                flushed = done;
+                stats = Stats::default();
+                samples.clear();
+            }
         }
         let _ = writeln!(
             out,
             "{}",
-            json!({"type":"summary","prop":prop,"seed":seed,"start":start,"stride":stride,"executed":done,"next":start + k * stride,
+            json!({"type":"summary","prop":prop,"seed":seed,"start":start,"stride":stride,"executed":done - flushed,"next":start + k * stride,
                    "wall_s":t0.elapsed().as_secs_f64(),"stats":stats_json(&stats),"samples":samples})
         );
         let _ = out.flush();
